@@ -372,7 +372,7 @@ def rule_val_frac(ag, x, r, ea, hole=None):
     return tot
 
 
-def gen_fx_recursive(rng, linear=False, max_q=None, dead=False, scalar_start=False):
+def gen_fx_recursive(rng, linear=False, max_q=None, dead=False, scalar_start=False, patterned=False):
     """A recursive grammar with quarter-valued weights whose least fixed point is `cert` by
     construction (each nonterminal gets a constant rule that makes cert a fixed point)."""
     from fractions import Fraction
@@ -415,6 +415,22 @@ def gen_fx_recursive(rng, linear=False, max_q=None, dead=False, scalar_start=Fal
                     edges.append({'lab': 'a', 'att': [rng.randrange(len(nodes)) + 1]})
                 rng.shuffle(edges)
                 rules.append({'lhs': X, 'nodes': nodes, 'edges': edges, 'ext': ext})
+        if patterned:
+            # a binary nonterminal P whose base rule is an IDENTITY factor (built as a diagonal
+            # PatternedTensor): its iterates change sparsity pattern, its sum-product is patterned
+            els['P'] = {'t': False, 'type': ['T', 'T']}
+            els['eq'] = {'t': True, 'type': ['T', 'T']}
+            els['m'] = {'t': True, 'type': ['T', 'T']}
+            n = nls['T']
+            wfx['eq'] = [FXS if i == j else 0 for i in range(n) for j in range(n)]
+            # strictly upper triangular: (I - M)^-1 = I + M + M^2 is exact on the grid, so P needs no constant rule
+            wfx['m'] = [(rng.choice([256, 256, 512]) if j > i else 0) for i in range(n) for j in range(n)]
+            rules.append({'lhs': 'P', 'nodes': ['T', 'T'], 'edges': [{'lab': 'eq', 'att': [1, 2]}, {'lab': 'b', 'att': []}], 'ext': [1, 2]})
+            rules.append({'lhs': 'P', 'nodes': ['T', 'T', 'T'], 'edges': [{'lab': 'P', 'att': [1, 3]}, {'lab': 'm', 'att': [3, 2]}], 'ext': [1, 2]})
+            rules.append({'lhs': 'S', 'nodes': list(els['S']['type']) + ['T', 'T'],
+                          'edges': [{'lab': 'P', 'att': [len(els['S']['type']) + 1, len(els['S']['type']) + 2]}, {'lab': 'a', 'att': [len(els['S']['type']) + 1]}, {'lab': 'b', 'att': []}],
+                          'ext': list(range(1, len(els['S']['type']) + 1))})
+            ntn = ntn + ['P']
         if dead:
             rules.append({'lhs': 'D', 'nodes': [], 'edges': [{'lab': 'S' if els['S']['type'] == [] else 'D', 'att': []}, {'lab': 'D', 'att': []}], 'ext': []})
             for X in ntn:          # a dead rule for some live nonterminals, placed FIRST among its rules
@@ -424,7 +440,17 @@ def gen_fx_recursive(rng, linear=False, max_q=None, dead=False, scalar_start=Fal
                     rules.insert(0, dr)
         ag = {'nls': nls, 'els': els, 'elorder': list(els), 'start': 'S', 'rules': rules, 'wfx': wfx}
         # target fixed point on the quarter grid
-        x = {X: [Fraction(rng.choice([1, 2, 2, 3] if dead else [1, 2, 2, 3, 4, 6]), 4) for _ in range(numel(shape_of(ag, X)))] for X in ntn}
+        x = {X: [Fraction(rng.choice([1, 2, 2, 3] if (dead or patterned) else [1, 2, 2, 3, 4, 6]), 4) for _ in range(numel(shape_of(ag, X)))] for X in ntn}
+        if patterned:
+            n = nls['T']
+            M = [[Fraction(wfx['m'][i * n + j], FXS) for j in range(n)] for i in range(n)]
+            Pw = [[Fraction(int(i == j)) for j in range(n)] for i in range(n)]
+            acc = [row[:] for row in Pw]
+            for _p in range(n):
+                acc = [[sum(acc[i][k] * M[k][j] for k in range(n)) for j in range(n)] for i in range(n)]
+                Pw = [[Pw[i][j] + acc[i][j] for j in range(n)] for i in range(n)]
+            bw = Fraction(wfx['b'][0], FXS)
+            x['P'] = [bw * Pw[i][j] for i in range(n) for j in range(n)]
         if dead:
             x['D'] = [Fraction(0)]
         cert, ok = {}, True
@@ -444,6 +470,10 @@ def gen_fx_recursive(rng, linear=False, max_q=None, dead=False, scalar_start=Fal
                 cw.append(int(c * FXS))
             if not ok:
                 break
+            if all(v == 0 for v in cw):
+                del els[cname]          # no constant rule needed (keeps the sparsity pattern of X's iterates)
+                cert[X] = [int(v * FXS) for v in x[X]]
+                continue
             wfx[cname] = cw
             nodes = list(els[X]['type'])
             rules.append({'lhs': X, 'nodes': nodes, 'edges': [{'lab': cname, 'att': list(range(1, len(nodes) + 1))}], 'ext': list(range(1, len(nodes) + 1))})
@@ -471,6 +501,7 @@ def gen_fx_recursive(rng, linear=False, max_q=None, dead=False, scalar_start=Fal
         ag['wmp'] = {t: [0] * len(v) for t, v in wfx.items()}
         if not dead:
             rng.shuffle(ag['rules'])
+        ag['patterned_eq'] = bool(patterned)
         return ag
     raise RuntimeError('gen_fx_recursive: no instance found')
 
@@ -484,5 +515,16 @@ def build_fgg_fx(ag, kind, dtype):
         fl = [v / FXS for v in vals]
         if kind == 'log':
             fl = [math.log(v) if v > 0 else -math.inf for v in fl]
+        if t == 'eq' and ag.get('patterned_eq'):
+            # the identity factor as a diagonal pattern (k) -> (k, k), default = semiring zero
+            from fggs.indices import PatternedTensor, PhysicalAxis
+            n = ag['nls']['T']
+            one, zero = (1.0, 0.0) if kind == 'real' else (0.0, -math.inf)
+            if n == 1:
+                g.factors[t].weights = torch.tensor([[one]], dtype=dtype)
+            else:
+                k = PhysicalAxis(n)
+                g.factors[t].weights = PatternedTensor(torch.full((n,), one, dtype=dtype), (k,), (k, k), zero)
+            continue
         g.factors[t].weights = torch.tensor(fl, dtype=dtype).reshape(shape_of(ag, t))
     return g, info
